@@ -149,6 +149,36 @@ type rwRec struct {
 	Panic string    `json:"panic,omitempty"`
 }
 
+type rwxRec struct {
+	K     string   `json:"k"`
+	Idx   uint64   `json:"idx"`
+	AP    []string `json:"ap"`
+	RW    []string `json:"rw"`
+	Root  *string  `json:"root"` // nil = panic or hang, "" = nil result
+	Ver   bool     `json:"ver"`
+	Panic string   `json:"panic,omitempty"`
+}
+
+// rwxCase: CalculateRootFromRightWitness / VerifyRightWitness on arbitrary arguments under a watchdog
+func rwxCase(idx uint64, ap, rw [][]byte) rwxRec {
+	rec := rwxRec{K: "rwx", Idx: idx, AP: hxs(ap), RW: hxs(rw)}
+	pending(rec)
+	var root []byte
+	if p := tryFor(3*time.Second, func() {
+		root = rmt.CalculateRootFromRightWitness(idx, append([][]byte{}, ap...), append([][]byte{}, rw...))
+	}); p != "" {
+		rec.Panic = "CalculateRootFromRightWitness:" + p
+		return rec
+	}
+	s := hx32(root)
+	rec.Root = &s
+	if p := tryFor(3*time.Second, func() { rec.Ver = rmt.VerifyRightWitness(idx, ap, rw, leafHash([]byte{1})) }); p != "" {
+		rec.Panic = "VerifyRightWitness:" + p
+		rec.Root = nil
+	}
+	return rec
+}
+
 func try(f func()) (p string) {
 	defer func() {
 		if r := recover(); r != nil {
@@ -532,6 +562,8 @@ func replay(o *hx.Out, path string, r *hx.Rng) {
 			Ups  [][2]int `json:"ups"`
 			Qs   []int    `json:"qs"`
 			Idx  int      `json:"idx"`
+			AP   []string `json:"ap"`
+			RW   []string `json:"rw"`
 		}
 		if err := json.Unmarshal([]byte(line), &g); err != nil {
 			panic(err)
@@ -545,6 +577,15 @@ func replay(o *hx.Out, path string, r *hx.Rng) {
 			o.Put(updCase(g.Seed, g.N, g.Ups))
 		case "rw":
 			rwCases(o, g.Seed, g.N, []int{g.Idx})
+		case "rwx":
+			unh := func(xs []string) [][]byte {
+				r := make([][]byte, len(xs))
+				for i, x := range xs {
+					r[i], _ = hex.DecodeString(x)
+				}
+				return r
+			}
+			o.Put(rwxCase(uint64(g.Idx), unh(g.AP), unh(g.RW)))
 		}
 	}
 }
@@ -559,6 +600,7 @@ func main() {
 	pmax := flag.Int("pmax", 70, "max tree size for random proof/update cases")
 	nupd := flag.Int("nupd", 120, "random update cases")
 	rwmax := flag.Int("rwmax", 40, "all witness positions for sizes 0..rwmax")
+	nrwx := flag.Int("nrwx", 60, "right-witness reconstructions on arbitrary arguments")
 	flag.Parse()
 	r := hx.NewRng(hx.SeedFromEnv())
 	o := hx.NewOut(*out)
@@ -643,6 +685,22 @@ func main() {
 			}
 		}
 		o.Put(updCase(seed, n, randUps(r, n, 1+r.Intn(5))))
+	}
+	// (e) right-witness reconstruction on inconsistent arguments (must terminate): the reported hang first
+	hs := func(k int) [][]byte {
+		r := make([][]byte, k)
+		for i := range r {
+			r[i] = leafHash(other(seed, 2000+i))
+		}
+		return r
+	}
+	o.Put(rwxCase(0, hs(2), hs(1)))
+	for i := 0; i < *nrwx; i++ {
+		idx := uint64(r.Intn(40))
+		if r.Intn(5) == 0 {
+			idx = r.U64()
+		}
+		o.Put(rwxCase(idx, hs(r.Intn(5)), hs(r.Intn(5))))
 	}
 	// (d) right witnesses: all positions 0..n+1
 	for n := 0; n <= *rwmax; n++ {
